@@ -56,6 +56,8 @@ REDUCED = [
 
 def schedules(tier):
     els = elements(tier)
+    # nothing left to run (e.g. an include filter that matches nothing): zero steps, still a well-formed plan
+    yield []
     for el in els:
         yield [el]
         for m in range(1, 7):
@@ -70,7 +72,9 @@ def schedules(tier):
 def check_schedule(spec, res):
     schedule = sc.build_schedule(spec)
     has_empty = any(el[0] == "P" and not el[2] for el in spec)
-    v = sc.check_allocator(schedule)
+    # clients per element as the specification says (docs/track.rst: the parallel element's own clients, else the sum of its sub-tasks)
+    counts = [el[1] if el[0] == "T" else (el[1] if el[1] is not None else sum(el[2])) for el in spec]
+    v = sc.check_allocator(schedule, want_counts=counts)
     if v is None:
         w = sc.check_progress_walk(schedule)
         if w == "skipped":
